@@ -22,7 +22,7 @@ def jobs(tier):
         def J(name, op, enforce, fns, extra=(), stub=True, **kw):
             js.append(Job(name='%s_%s' % (nm.lower(), name), shim='digest', contract='c14_digest.c', harness='h_%s_%s' % (nm.lower(), name), enforce=[enforce],
                           shim_defines=['DG=%d' % dg], defines=['OP_' + op, 'DG=%d' % dg] + list(extra), functions=fns, include_dirs=[os.path.join(VERIF, 'spec'), SPECDIR],
-                          resolve={'COMPFN': COMP[dg]}, replace_calls=[('COMPFN', 'uf_compress')] if stub else [], **kw))
+                          resolve={'COMPFN': COMP[dg]}, replace_calls=[('COMPFN', 'uf_compress')] if stub else [], mode='assert' if stub else 'dfcc', **kw))
         J('init', 'init', 'c_init', [r'tlx::%s::%s\(\)' % (nm, nm)], stub=False, what='%s(): initial state equals the standard H0, empty buffer' % nm)
         blk = 128 if dg == 3 else 64
         J('process', 'process', 'c_process', [r'tlx::%s::process\(void const\*, unsigned int\)' % nm], unwind=2 * blk + 12, timeout=1500,
@@ -37,7 +37,7 @@ def jobs(tier):
 
 META = {
     'level': 'other',
-    'assumptions': ['reference text = spec/digest_spec.h (my transcription of RFC 1321 / FIPS 180-4, constants generated from their definitions, validated against hashlib on every run)',
+    'assumptions': ['process / finalize contracts are enforced by rewriting (assert mode: goto-instrument --dfcc runs out of memory on the unwound block loops), so their assigns clauses are not checked', 'reference text = spec/digest_spec.h (my transcription of RFC 1321 / FIPS 180-4, constants generated from their definitions, validated against hashlib on every run)',
                     'composition step (stated): compress == standard, process feeds the stream in block order, finalize feeds the standard padding => digest == standard for every chunking'],
     'not_decided': ['process() for a single call of more than two blocks + 7 bytes (longer inputs: same loop body)', 'digest()/digest_hex()/xxx_hex() string wrappers (std::string + hexdump: see C19)',
                     'SipHash (portable and SSE2) is not under contract in this version', 'compress equivalence is in the thorough tier (cvc5)'],
